@@ -51,3 +51,11 @@ claim('C05',
       'nearly coincident bounds.',
       'Trusted: ast/CFG construction; numpy semantics of np.unique (sorted) and np.around.',
       'DESIGN.md 4 C05')
+claim('C20',
+      'syntax-directed ordering/once rules, bounded-loop check on the CFG, enumeration of abstract loop-exit states against the post-loop guard, guard dominance, sibling-store limit check',
+      'Static conformance to the structural necessary conditions of C20 in DESIGN 4.20: descending sort before the sweep, each parameter appended exactly once into contiguous '
+      'groups, loop bounds with increments on every path, the post-loop guard rejecting every exit state with a wrong group count (20 abstract states enumerated), '
+      'mass-conservation and group-count guards dominating the return of distribute, remainder to the last group, every store into the flow vector masked by a group '
+      'and compared with the pressure-drop limit. Does not decide the partition/sum numerically nor convergence.',
+      'Trusted: ast/CFG; three-valued evaluator of guard conditions (dsa/util.eval_test).',
+      'DESIGN.md 4 C20')
